@@ -7,7 +7,7 @@ from . import model as M
 
 KINDS = ["param", "leaf", "swap", "arity", "tag", "spelling"]
 # CPython hash collisions of unequal numbers: hash(-1) == hash(-2); hash(n) == hash(n mod (2**61 - 1))
-COLLIDE = {-1: -2, -2: -1, 0: 2 ** 61 - 1, 1: 2 ** 61, 2: 2 ** 61 + 1, -3: -(2 ** 61 + 2)}
+COLLIDE = {-1: -2, -2: -1}      # (the 2**61-sized collisions are left out: evaluating 2 ** Constant(2**61) never returns)
 
 
 def _respell(v):
